@@ -284,9 +284,15 @@ def stepOut (env : Env) (cfg : GCfg) (nomsg : List Suppr) (el : List Str) (f : F
     (if f.text.isEmpty || (!cfg.emitDuplicates && el.contains f.text) || supB env cfg nomsg f then []
      else [{ f := f, remark := remarkFor cfg f }])
 
-def stepEl (cfg : GCfg) (el : List Str) (f : Finding) : List Str :=
-  if f.internal || !f.libReports || f.text.isEmpty || cfg.emitDuplicates || el.contains f.text then el
+def stepEl (dfix : Bool) (env : Env) (cfg : GCfg) (nomsg : List Suppr) (el : List Str) (f : Finding) : List Str :=
+  if f.internal || !f.libReports || f.text.isEmpty || (dfix && supB env cfg nomsg f) || cfg.emitDuplicates ||
+      el.contains f.text then el
   else f.text :: el
+
+theorem stepEl_congr (dfix : Bool) (env : Env) (cfg : GCfg) {a b : List Suppr} (h : FlagEq a b) (el : List Str)
+    (f : Finding) : stepEl dfix env cfg a el f = stepEl dfix env cfg b el f := by
+  unfold stepEl supB
+  rw [anyMatch_congr env _ _ h]
 
 theorem stepOut_congr (env : Env) (cfg : GCfg) {a b : List Suppr} (h : FlagEq a b) (el : List Str) (f : Finding) :
     stepOut env cfg a el f = stepOut env cfg b el f := by
@@ -315,11 +321,11 @@ theorem safetyStep_spec (env : Env) (cfg : GCfg) (st : GState) (f : Finding) (m 
     simp [listIsSuppressedExplicitly_fst]
   · exact ⟨rfl, rfl, by simp⟩
 
-theorem reportErr_spec (env : Env) (cfg : GCfg) (st : GState) (f : Finding) :
-    FlagEq (reportErr env cfg st f).nomsg st.nomsg ∧
-    (reportErr env cfg st f).out = st.out ++ stepOut env cfg st.nomsg st.errorList f ∧
-    (reportErr env cfg st f).errorList = stepEl cfg st.errorList f := by
-  unfold reportErr stepOut stepEl
+theorem reportErrG_spec (dfix : Bool) (env : Env) (cfg : GCfg) (st : GState) (f : Finding) :
+    FlagEq (reportErrG dfix env cfg st f).nomsg st.nomsg ∧
+    (reportErrG dfix env cfg st f).out = st.out ++ stepOut env cfg st.nomsg st.errorList f ∧
+    (reportErrG dfix env cfg st f).errorList = stepEl dfix env cfg st.nomsg st.errorList f := by
+  unfold reportErrG stepOut stepEl
   by_cases hi : f.internal = true
   · simp [hi, FlagEq]
   · by_cases hl : f.libReports = true
@@ -343,69 +349,80 @@ theorem reportErr_spec (env : Env) (cfg : GCfg) (st : GState) (f : Finding) :
       rw [hr1]
       by_cases ht : f.text.isEmpty = true
       · simp [ht, s1', s2, s3]
-      · by_cases hd : (!cfg.emitDuplicates && st2.errorList.contains f.text) = true
-        · have hd' := hd
-          rw [s2] at hd'
-          simp only [Bool.and_eq_true, Bool.not_eq_true'] at hd'
-          simp only [ht, hd, if_true, if_false, Bool.false_eq_true]
-          have hmem : f.text ∈ st.errorList := by simpa using hd'.2
+      · by_cases hfx : (dfix && supB env cfg st.nomsg f) = true
+        · have hs : supB env cfg st.nomsg f = true := by
+            simp only [Bool.and_eq_true] at hfx; exact hfx.2
+          simp only [ht, hfx, if_true, if_false, Bool.false_eq_true]
           refine ⟨s1', ?_, ?_⟩
-          · rw [s3]; simp [hd'.1, hmem]
-          · rw [s2]; simp [hmem]
-        · have hd' := hd
-          rw [s2] at hd'
-          simp only [ht, hd, if_false, Bool.false_eq_true]
-          by_cases hs : supB env cfg st.nomsg f = true
-          · simp only [hs, if_true]
-            by_cases he : cfg.emitDuplicates = true
-            · simp only [he, if_true]
-              refine ⟨s1', ?_, ?_⟩
-              · rw [s3]; simp [hs]
-              · rw [s2]; simp [he]
-            · simp only [he, if_false, Bool.false_eq_true]
-              refine ⟨s1', ?_, ?_⟩
-              · rw [s3]; simp [hs]
-              · have hnm : f.text ∉ st.errorList := by
+          · rw [s3]; simp [hs]
+          · rw [s2]; simp
+        · by_cases hd : (!cfg.emitDuplicates && st2.errorList.contains f.text) = true
+          · have hd' := hd
+            rw [s2] at hd'
+            simp only [Bool.and_eq_true, Bool.not_eq_true'] at hd'
+            simp only [ht, hfx, hd, if_true, if_false, Bool.false_eq_true]
+            have hmem : f.text ∈ st.errorList := by simpa using hd'.2
+            refine ⟨s1', ?_, ?_⟩
+            · rw [s3]; simp [hd'.1, hmem]
+            · rw [s2]; simp [hmem]
+          · have hd' := hd
+            rw [s2] at hd'
+            simp only [ht, hfx, hd, if_false, Bool.false_eq_true]
+            by_cases hs : supB env cfg st.nomsg f = true
+            · simp only [hs, if_true]
+              by_cases he : cfg.emitDuplicates = true
+              · simp only [he, if_true]
+                refine ⟨s1', ?_, ?_⟩
+                · rw [s3]; simp [hs]
+                · rw [s2]; simp [he]
+              · simp only [he, if_false, Bool.false_eq_true]
+                refine ⟨s1', ?_, ?_⟩
+                · rw [s3]; simp [hs]
+                · have hnm : f.text ∉ st.errorList := by
+                    simpa [he] using hd'
+                  have hdf : dfix = false := by
+                    cases dfix with
+                    | false => rfl
+                    | true => simp [hs] at hfx
+                  rw [s2]; simp [he, hnm, hdf]
+            · simp only [hs, if_false, Bool.false_eq_true]
+              by_cases he : cfg.emitDuplicates = true
+              · simp only [he, if_true]
+                obtain ⟨x1, x2, x3⟩ := exitStep_spec env st2 (toMsg env cfg f)
+                refine ⟨FlagEq.trans x1 s1', ?_, ?_⟩
+                · simp only [x2, s3]; simp [hs, he]
+                · simp only [x3, s2]; simp [he]
+              · simp only [he, if_false, Bool.false_eq_true]
+                obtain ⟨x1, x2, x3⟩ := exitStep_spec env { st2 with errorList := f.text :: st2.errorList } (toMsg env cfg f)
+                have hnm : f.text ∉ st.errorList := by
                   simpa [he] using hd'
-                rw [s2]; simp [he, hnm]
-          · simp only [hs, if_false, Bool.false_eq_true]
-            by_cases he : cfg.emitDuplicates = true
-            · simp only [he, if_true]
-              obtain ⟨x1, x2, x3⟩ := exitStep_spec env st2 (toMsg env cfg f)
-              refine ⟨FlagEq.trans x1 s1', ?_, ?_⟩
-              · simp only [x2, s3]; simp [hs, he]
-              · simp only [x3, s2]; simp [he]
-            · simp only [he, if_false, Bool.false_eq_true]
-              obtain ⟨x1, x2, x3⟩ := exitStep_spec env { st2 with errorList := f.text :: st2.errorList } (toMsg env cfg f)
-              have hnm : f.text ∉ st.errorList := by
-                simpa [he] using hd'
-              dsimp only at x1 x2 x3 ⊢
-              refine ⟨FlagEq.trans x1 s1', ?_, ?_⟩
-              · rw [x2, s3]; simp [hs, he, hnm]
-              · rw [x3, s2]; simp [he, hnm]
+                dsimp only at x1 x2 x3 ⊢
+                refine ⟨FlagEq.trans x1 s1', ?_, ?_⟩
+                · rw [x2, s3]; simp [hs, he, hnm]
+                · rw [x3, s2]; simp [hs, he, hnm]
     · simp [hi, hl, FlagEq]
 
 /-- output of the whole run as a function of the (flag-erased) `nomsg` list -/
-def outAcc (env : Env) (cfg : GCfg) (nomsg : List Suppr) : List Str → List Finding → List Out
+def outAcc (dfix : Bool) (env : Env) (cfg : GCfg) (nomsg : List Suppr) : List Str → List Finding → List Out
   | _, [] => []
-  | el, f :: r => stepOut env cfg nomsg el f ++ outAcc env cfg nomsg (stepEl cfg el f) r
+  | el, f :: r => stepOut env cfg nomsg el f ++ outAcc dfix env cfg nomsg (stepEl dfix env cfg nomsg el f) r
 
-theorem foldl_out (env : Env) (cfg : GCfg) (nomsg : List Suppr) : ∀ (fs : List Finding) (st : GState),
+theorem foldl_out (dfix : Bool) (env : Env) (cfg : GCfg) (nomsg : List Suppr) : ∀ (fs : List Finding) (st : GState),
     FlagEq st.nomsg nomsg →
-    (fs.foldl (reportErr env cfg) st).out = st.out ++ outAcc env cfg nomsg st.errorList fs := by
+    (fs.foldl (reportErrG dfix env cfg) st).out = st.out ++ outAcc dfix env cfg nomsg st.errorList fs := by
   intro fs
   induction fs with
   | nil => intro st _; simp [outAcc]
   | cons f r ih =>
     intro st h
-    obtain ⟨h1, h2, h3⟩ := reportErr_spec env cfg st f
+    obtain ⟨h1, h2, h3⟩ := reportErrG_spec dfix env cfg st f
     simp only [List.foldl_cons, outAcc]
-    rw [ih _ (FlagEq.trans h1 h), h2, h3, stepOut_congr env cfg h, List.append_assoc]
+    rw [ih _ (FlagEq.trans h1 h), h2, h3, stepOut_congr env cfg h, stepEl_congr dfix env cfg h, List.append_assoc]
 
-theorem gate_out (env : Env) (cfg : GCfg) (nomsg nofail : List Suppr) (fs : List Finding) :
-    (gate env cfg nomsg nofail fs).out = outAcc env cfg nomsg [] fs := by
-  unfold gate
-  rw [foldl_out env cfg nomsg fs _ (FlagEq.refl _)]
+theorem gateG_out (dfix : Bool) (env : Env) (cfg : GCfg) (nomsg nofail : List Suppr) (fs : List Finding) :
+    (gateG dfix env cfg nomsg nofail fs).out = outAcc dfix env cfg nomsg [] fs := by
+  unfold gateG
+  rw [foldl_out dfix env cfg nomsg fs _ (FlagEq.refl _)]
   rfl
 
 /-- a finding is forwarded unaltered -/
@@ -465,89 +482,152 @@ theorem reported_append (a b : List Out) (f : Finding) : Reported (a ++ b) f ↔
     · exact ⟨o, Or.inl ho, h⟩
     · exact ⟨o, Or.inr ho, h⟩
 
-theorem stepEl_sub (cfg : GCfg) (el : List Str) (f : Finding) (t : Str) (h : t ∈ el) : t ∈ stepEl cfg el f := by
+theorem stepEl_sub (dfix : Bool) (env : Env) (cfg : GCfg) (nomsg : List Suppr) (el : List Str) (f : Finding) (t : Str)
+    (h : t ∈ el) : t ∈ stepEl dfix env cfg nomsg el f := by
   unfold stepEl
   split
   · exact h
   · exact List.mem_cons_of_mem _ h
 
-theorem stepEl_new (cfg : GCfg) (el : List Str) (f : Finding) (t : Str) (h : t ∈ stepEl cfg el f) :
+theorem stepEl_new (dfix : Bool) (env : Env) (cfg : GCfg) (nomsg : List Suppr) (el : List Str) (f : Finding) (t : Str)
+    (h : t ∈ stepEl dfix env cfg nomsg el f) :
     t ∈ el ∨ (t = f.text ∧ f.internal = false ∧ f.libReports = true ∧ f.text.isEmpty = false ∧
-      cfg.emitDuplicates = false ∧ el.contains f.text = false) := by
+      (dfix && supB env cfg nomsg f) = false ∧ cfg.emitDuplicates = false ∧ el.contains f.text = false) := by
   unfold stepEl at h
   split at h
   · exact Or.inl h
   · rename_i hc
     simp only [Bool.or_eq_true, Bool.not_eq_true', not_or, Bool.not_eq_true] at hc
     rcases List.mem_cons.1 h with h | h
-    · exact Or.inr ⟨h, hc.1.1.1.1, by simpa using hc.1.1.1.2, hc.1.1.2, hc.1.2, hc.2⟩
+    · exact Or.inr ⟨h, hc.1.1.1.1.1, by simpa using hc.1.1.1.1.2, hc.1.1.1.2, hc.1.1.2, hc.1.2, hc.2⟩
     · exact Or.inl h
 
-theorem reported_outAcc (env : Env) (cfg : GCfg) (nomsg : List Suppr) : ∀ (fs : List Finding) (el : List Str),
-    (cfg.emitDuplicates = true ∨ TextInj fs) →
-    ∀ f, Reported (outAcc env cfg nomsg el fs) f ↔ f ∈ fs ∧ passesEl env cfg nomsg el f = true := by
+/-- `passesEl` only gets harder when the filter grows -/
+theorem passesEl_mono (env : Env) (cfg : GCfg) (nomsg : List Suppr) (el el' : List Str) (f : Finding)
+    (hsub : ∀ t ∈ el, t ∈ el') (h : passesEl env cfg nomsg el' f = true) : passesEl env cfg nomsg el f = true := by
+  unfold passesEl at h ⊢
+  by_cases hc : el.contains f.text = true
+  · have hc' : f.text ∈ el := by simpa using hc
+    have hc'' : f.text ∈ el' := hsub _ hc'
+    simpa [hc', hc''] using h
+  · have hc' : f.text ∉ el := by simpa using hc
+    revert h
+    simp only [hc', List.contains_iff_mem, decide_false, Bool.not_false, Bool.or_true, Bool.and_true,
+      List.elem_eq_mem]
+    generalize decide (f.text ∈ el') = a7
+    generalize f.internal = b1
+    generalize f.libReports = b2
+    generalize supB env cfg nomsg f = a1
+    generalize cfg.safety = a2
+    generalize f.critical = a3
+    generalize explB env cfg nomsg f = a4
+    generalize f.text.isEmpty = a5
+    generalize cfg.emitDuplicates = a6
+    cases b1 <;> cases b2 <;> cases a1 <;> cases a2 <;> cases a3 <;> cases a4 <;> cases a5 <;> cases a6 <;> cases a7 <;> simp
+
+/-- soundness of the gate (no hypothesis): whatever is forwarded unaltered is a finding of the run that passes -/
+theorem reported_outAcc_sound (dfix : Bool) (env : Env) (cfg : GCfg) (nomsg : List Suppr) :
+    ∀ (fs : List Finding) (el : List Str) (f : Finding),
+    Reported (outAcc dfix env cfg nomsg el fs) f → f ∈ fs ∧ passesEl env cfg nomsg el f = true := by
   intro fs
   induction fs with
-  | nil => intro el _ f; simp [outAcc, Reported]
+  | nil => intro el f h; simp [outAcc, Reported] at h
   | cons g r ih =>
-    intro el hd f
+    intro el f h
+    simp only [outAcc, reported_append, reported_stepOut] at h
+    rcases h with ⟨rfl, h⟩ | h
+    · exact ⟨List.mem_cons_self, h⟩
+    · obtain ⟨hm, hp⟩ := ih _ f h
+      exact ⟨List.mem_cons_of_mem _ hm,
+        passesEl_mono env cfg nomsg el _ f (fun t ht => stepEl_sub dfix env cfg nomsg el g t ht) hp⟩
+
+/-- the filter does not block `f` after the step unless the step itself inserted `f`'s text -/
+theorem passesEl_step (dfix : Bool) (env : Env) (cfg : GCfg) (nomsg : List Suppr) (el : List Str) (g f : Finding)
+    (h : passesEl env cfg nomsg el f = true)
+    (hn : ¬ (f.text = g.text ∧ g.internal = false ∧ g.libReports = true ∧ g.text.isEmpty = false ∧
+      (dfix && supB env cfg nomsg g) = false ∧ cfg.emitDuplicates = false ∧ el.contains g.text = false)) :
+    passesEl env cfg nomsg (stepEl dfix env cfg nomsg el g) f = true := by
+  by_cases hc : f.text ∈ stepEl dfix env cfg nomsg el g
+  · rcases stepEl_new dfix env cfg nomsg el g _ hc with hc' | hc'
+    · unfold passesEl at h ⊢
+      simpa [hc, hc'] using h
+    · exact absurd hc' hn
+  · unfold passesEl at h ⊢
+    revert h
+    simp only [hc, List.contains_iff_mem, decide_false, Bool.not_false, Bool.or_true, Bool.and_true, List.elem_eq_mem]
+    generalize decide (f.text ∈ el) = a7
+    generalize f.internal = b1
+    generalize f.libReports = b2
+    generalize supB env cfg nomsg f = a1
+    generalize cfg.safety = a2
+    generalize f.critical = a3
+    generalize explB env cfg nomsg f = a4
+    generalize f.text.isEmpty = a5
+    generalize cfg.emitDuplicates = a6
+    cases b1 <;> cases b2 <;> cases a1 <;> cases a2 <;> cases a3 <;> cases a4 <;> cases a5 <;> cases a6 <;> cases a7 <;> simp
+
+/-- completeness when distinct findings have distinct renderings (or duplicates are emitted) -/
+theorem reported_outAcc_complete (dfix : Bool) (env : Env) (cfg : GCfg) (nomsg : List Suppr) :
+    ∀ (fs : List Finding) (el : List Str), (cfg.emitDuplicates = true ∨ TextInj fs) →
+    ∀ f, f ∈ fs → passesEl env cfg nomsg el f = true → Reported (outAcc dfix env cfg nomsg el fs) f := by
+  intro fs
+  induction fs with
+  | nil => intro el _ f hm; cases hm
+  | cons g r ih =>
+    intro el hd f hm hp
     have hd' : cfg.emitDuplicates = true ∨ TextInj r := by
       rcases hd with hd | hd
       · exact Or.inl hd
       · exact Or.inr (fun a ha b hb => hd a (List.mem_cons_of_mem _ ha) b (List.mem_cons_of_mem _ hb))
-    simp only [outAcc, reported_append, reported_stepOut, ih _ hd', List.mem_cons]
-    constructor
-    · rintro (⟨rfl, h⟩ | ⟨hm, h⟩)
-      · exact ⟨Or.inl rfl, h⟩
-      · refine ⟨Or.inr hm, ?_⟩
-        unfold passesEl at h ⊢
-        by_cases hc : el.contains f.text = true
-        · have hc' : f.text ∈ el := by simpa using hc
-          have this' : f.text ∈ stepEl cfg el g := stepEl_sub cfg el g _ hc'
-          simpa [this', hc'] using h
-        · simp only [Bool.not_eq_true] at hc
-          revert h
-          simp only [hc, Bool.not_false, Bool.or_true, Bool.and_true]
-          generalize (stepEl cfg el g).contains f.text = a7
-          generalize f.internal = b1
-          generalize f.libReports = b2
-          generalize supB env cfg nomsg f = a1
-          generalize cfg.safety = a2
-          generalize f.critical = a3
-          generalize explB env cfg nomsg f = a4
-          generalize f.text.isEmpty = a5
-          generalize cfg.emitDuplicates = a6
-          cases b1 <;> cases b2 <;> cases a1 <;> cases a2 <;> cases a3 <;> cases a4 <;> cases a5 <;> cases a6 <;> cases a7 <;> simp
-    · rintro ⟨hm | hm, h⟩
-      · exact Or.inl ⟨hm.symm, hm ▸ h⟩
-      · by_cases hfg : f = g
-        · exact Or.inl ⟨hfg.symm, hfg ▸ h⟩
-        · right
-          refine ⟨hm, ?_⟩
-          by_cases hc : (stepEl cfg el g).contains f.text = true
-          · -- the text entered the filter in this very step or was there before
-            simp only [List.contains_iff_mem] at hc
-            rcases stepEl_new cfg el g _ hc with hc | ⟨ht, -, -, -, he, -⟩
-            · have this' : f.text ∈ stepEl cfg el g := stepEl_sub cfg el g _ hc
-              unfold passesEl at h ⊢
-              simpa [this', hc] using h
-            · rcases hd with hd | hd
-              · rw [hd] at he; cases he
-              · exact absurd (hd f (List.mem_cons_of_mem _ hm) g (List.mem_cons_self) ht) hfg
-          · simp only [Bool.not_eq_true] at hc
-            unfold passesEl at h ⊢
-            revert h
-            simp only [hc, Bool.not_false, Bool.or_true, Bool.and_true]
-            generalize el.contains f.text = a7
-            generalize f.internal = b1
-            generalize f.libReports = b2
-            generalize supB env cfg nomsg f = a1
-            generalize cfg.safety = a2
-            generalize f.critical = a3
-            generalize explB env cfg nomsg f = a4
-            generalize f.text.isEmpty = a5
-            generalize cfg.emitDuplicates = a6
-            cases b1 <;> cases b2 <;> cases a1 <;> cases a2 <;> cases a3 <;> cases a4 <;> cases a5 <;> cases a6 <;> cases a7 <;> simp
+    simp only [outAcc, reported_append, reported_stepOut]
+    by_cases hfg : f = g
+    · exact Or.inl ⟨hfg.symm, hfg ▸ hp⟩
+    · have hmr : f ∈ r := by
+        rcases List.mem_cons.1 hm with h | h
+        · exact absurd h hfg
+        · exact h
+      right
+      apply ih _ hd' f hmr
+      apply passesEl_step dfix env cfg nomsg el g f hp
+      rintro ⟨ht, -, -, -, -, he, -⟩
+      rcases hd with hd | hd
+      · rw [hd] at he; cases he
+      · exact hfg (hd f hm g List.mem_cons_self ht)
+
+/-- completeness on renderings for the repaired duplicate filter (no hypothesis on the findings): the rendering of
+    every passing finding is forwarded, carried by a passing finding of the run -/
+theorem reported_outAcc_texts (env : Env) (cfg : GCfg) (nomsg : List Suppr) :
+    ∀ (fs : List Finding) (el : List Str) (f : Finding), f ∈ fs → passesEl env cfg nomsg el f = true →
+    ∃ g ∈ fs, g.text = f.text ∧ Reported (outAcc true env cfg nomsg el fs) g := by
+  intro fs
+  induction fs with
+  | nil => intro el f hm; cases hm
+  | cons h r ih =>
+    intro el f hm hp
+    by_cases hfh : f = h
+    · subst hfh
+      refine ⟨f, List.mem_cons_self, rfl, ?_⟩
+      simp only [outAcc, reported_append, reported_stepOut]
+      exact Or.inl (by simpa using hp)
+    · have hmr : f ∈ r := by
+        rcases List.mem_cons.1 hm with h' | h'
+        · exact absurd h' hfh
+        · exact h'
+      by_cases hblock : (f.text = h.text ∧ h.internal = false ∧ h.libReports = true ∧ h.text.isEmpty = false ∧
+          (true && supB env cfg nomsg h) = false ∧ cfg.emitDuplicates = false ∧ el.contains h.text = false)
+      · -- `h` itself carries the rendering
+        obtain ⟨ht, hi, hl, hte, hs, he, hc⟩ := hblock
+        refine ⟨h, List.mem_cons_self, ht.symm, ?_⟩
+        simp only [outAcc, reported_append, reported_stepOut]
+        left
+        have hnm : h.text ∉ el := by simpa using hc
+        unfold passesEl
+        simp only [Bool.true_and] at hs
+        simp [hi, hl, hs, hte, hnm]
+      · obtain ⟨g, hg, hgt, hgr⟩ := ih _ f hmr (passesEl_step true env cfg nomsg el h f hp hblock)
+        refine ⟨g, List.mem_cons_of_mem _ hg, hgt, ?_⟩
+        simp only [outAcc, reported_append]
+        exact Or.inr hgr
 
 theorem passesEl_nil (env : Env) (cfg : GCfg) (nomsg : List Suppr) (f : Finding) :
     passesEl env cfg nomsg [] f = passes env cfg nomsg f := by
